@@ -269,6 +269,54 @@ R.add('L4.4', l44, lambda tier: [dict(nmsg=3, steps=(4 if tier == 'quick' else 6
            'repeats: each message at most once',
       expect=['each sent message is delivered at most once'], bounds='3 datagrams, <= 4 (thorough 6) deliveries, sequence numbers from the start and across the wrap')
 
+
+# ------------------------------------------------------------------ L4.5 the client API hands each message out once
+def l45(n):
+    """UdpClient.hasMessages/getMessage/getMessages are the application's view of the client's inbox: every message
+    that was delivered is handed out exactly once, in order, by whatever mix of the two getters; duplicates of the
+    datagrams add nothing"""
+    clock = proto.clock_at(100.0)
+    u = proto.client_mod.UdpClient()
+    u.conn = proto.mk_client_side(clock=clock)
+    rx = u.conn
+    tx = proto.mk_base(server=True, clock=clock)
+    check(u.hasMessages() is False and u.getMessages() == [], 'an empty inbox is empty')
+    sent, raws = [], []
+    for i in range(n):
+        payload, L = rope.blob('p%d' % i, 0, 50)
+        tx.send(payload, RetryMode.NONE, None)
+        pkt = tx._build_packet_impl(100.0, False, 0.1)
+        raw = tx._encode_packet(pkt)
+        raws.append(raw)
+        rx._recv_datagram(conn.PacketHeader.from_bytes(False, raw), raw)
+        sent.append(payload)
+    check(u.hasMessages() is (n > 0), 'hasMessages <=> something was delivered')
+    k = choose(n + 1, 'single_reads')              # getMessage k times, then getMessages for the rest
+    got = []
+    for i in range(k):
+        got.append(u.getMessage())
+    # a duplicate of the first datagram arrives between the reads
+    if n:
+        rx._recv_datagram(conn.PacketHeader.from_bytes(False, raws[0]), raws[0])
+    rest = u.getMessages()
+    got.extend(rest)
+    check(len(got) == n, 'every delivered message is handed out exactly once')
+    for (seq, data), want in zip(got, sent):
+        check(rope.rope_eq(data, want), 'messages are handed out in order with their payload')
+    check(u.hasMessages() is False and u.getMessages() == [], 'the inbox is empty after it was read')
+    try:
+        u.getMessage()
+        check(False, 'getMessage on an empty inbox raises IndexError')
+    except IndexError:
+        pass
+
+
+R.add('L4.5', l45, lambda tier: [dict(n=n) for n in ((0, 1, 2) if tier == 'quick' else (0, 1, 2, 3, 4))],
+      desc='UdpClient.hasMessages/getMessage/getMessages: each delivered message handed to the application once, in order, '
+           'for every mix of the getters, with a duplicate datagram arriving between reads',
+      expect=['every delivered message is handed out exactly once', 'the inbox is empty after it was read'],
+      bounds='<= 2 (thorough 4) messages of <= 50 opaque bytes')
+
 import sys as _sys  # noqa: E402
 for _l in R.lemmas.values():
     if _l.replay is None:
